@@ -27,6 +27,8 @@ def is_null(f, n):
 
 def const_value(f, n):
     """integer constant value of an expression, or None"""
+    if n is not None:
+        f = n.get("_fn", f)
     while n is not None:
         if "cv" in n:
             v = n["cv"]
@@ -43,11 +45,25 @@ def const_value(f, n):
     return None
 
 
-def render(f, n, keep_explicit_casts=True):
+def rx(f, n, keep_explicit_casts=False):
+    """origin rendering: like render(), but single-assignment locals are replaced by their initialisers and
+    explicit casts are dropped: `T* const tmp = get(); tmp->go(x)` reads `get()->go(x)`"""
+    return render(f, n, keep_explicit_casts, subst=True)
+
+
+def render(f, n, keep_explicit_casts=True, subst=False, _depth=0):
     if n is None:
         return "<null>"
+    f = n.get("_fn", f)
     k = n["k"]
-    R = lambda x: render(f, x, keep_explicit_casts)
+    R = lambda x: render(f, x, keep_explicit_casts, subst, _depth)
+    if subst and k == "DeclRefExpr" and n.get("dk") == "Var" and not n.get("global") and _depth < 6:
+        si = f.single_inits() if hasattr(f, "single_inits") else {}
+        init = si.get(n.get("did"))
+        if init is not None:
+            t = render(f, init, keep_explicit_casts, subst, _depth + 1)
+            # a SimpleString/record temporary built from one value reads as that value
+            return t
     if k in TRANSPARENT or k == "CXXDefaultArgExpr" or k == "CXXDefaultInitExpr":
         return R(n["c"][0]) if n.get("c") else "<?>"
     if k == "ImplicitCastExpr":
@@ -161,9 +177,24 @@ def _flip_rel(op):
     return {"<": ">", ">": "<", "<=": ">=", ">=": "<="}[op]
 
 
-def atom(f, n):
+def atom_sub(f, n):
+    """atom() with origin rendering (single-assignment locals replaced by their initialisers)"""
+    return atom(f, n, subst=True)
+
+
+def atom(f, n, subst=False):
     """normalise a branch condition into (key, polarity): the condition is true iff
     the atom `key` has truth value `polarity`."""
+    if n is not None:
+        f = n.get("_fn", f)
+    if subst:
+        # see through a condition that is just a single-assignment bool/pointer local
+        x = f.strip(n, casts=True) if n is not None else None
+        if x is not None and x["k"] == "DeclRefExpr" and x.get("dk") == "Var" and not x.get("global") and hasattr(f, "single_inits"):
+            init = f.single_inits().get(x.get("did"))
+            if init is not None:
+                return atom(f, init, subst=True)
+    rr = (lambda x: render(f, x, False, True)) if subst else (lambda x: render(f, x))
     pol = True
     while True:
         n = f.strip(n, casts=False)
@@ -189,14 +220,14 @@ def atom(f, n):
                     pol = not pol
                 n = r
                 continue
-            a, b = render(f, l), render(f, r)
+            a, b = rr(l), rr(r)
             if b < a:
                 a, b = b, a
             if n["op"] == "!=":
                 pol = not pol
             return ("(%s == %s)" % (a, b), pol)
         if n["k"] == "BinaryOperator" and n.get("op") in ("<", ">", "<=", ">="):
-            l, r = render(f, f.node(n["lhs"])), render(f, f.node(n["rhs"]))
+            l, r = rr(f.node(n["lhs"])), rr(f.node(n["rhs"]))
             op = n["op"]
             if op in (">", "<="):
                 l, r = r, l
@@ -208,13 +239,13 @@ def atom(f, n):
         if n["k"] == "CXXOperatorCallExpr" and n.get("callee") and n["callee"]["qn"].split("::")[-1] in ("operator==", "operator!="):
             a = f.args(n)
             if len(a) == 2:
-                x, y = render(f, a[0]), render(f, a[1])
+                x, y = rr(a[0]), rr(a[1])
                 if y < x:
                     x, y = y, x
                 if n["callee"]["qn"].endswith("operator!="):
                     pol = not pol
                 return ("(%s == %s)" % (x, y), pol)
-        return (render(f, n), pol)
+        return (rr(n), pol)
 
 
 def _is_zero(f, n):
@@ -232,6 +263,7 @@ def _is_zero(f, n):
 
 def written_targets(f, n):
     """lvalues (rendered) written by element n itself (assignment, compound assignment, ++/--)"""
+    f = n.get("_fn", f)
     k = n["k"]
     if k in ("BinaryOperator", "CompoundAssignOperator") and (n.get("op") == "=" or n.get("op", "").endswith("=") and n["op"] not in ("==", "!=", "<=", ">=")):
         return [render(f, f.node(n["lhs"]))]
